@@ -184,6 +184,10 @@ FastRational divexact(FastRational const & n, FastRational const & d) {
         word den = d.num;
         word quo;
         if (den != 0){
+            if (num == WORD_MIN and den == -1) {
+                // -2^31 / -1 does not fit the word: the quotient of the wide type is exact
+                return FastRational(static_cast<uint32_t>(WORD_MAX) + 1u);
+            }
             quo = num / den;
             return quo;
         }
